@@ -7,7 +7,7 @@ from typing import List, Tuple
 import confuse, confuse.yaml_util as yu
 import cminx
 
-MODE = @@MODE@@          # bool | str | strseq | excl | outdir | wrongtype
+MODE = @@MODE@@          # bool | str | strseq | excl | exclseed | outdir | wrongtype
 SECTION = @@SECTION@@
 OPTION = @@OPTION@@
 CLI = @@CLI@@            # command-line flag that sets this option, or None
@@ -15,6 +15,8 @@ L = @@L@@
 EXTRA = @@EXTRA@@        # further command-line arguments always present (another flag of the same run: options must not disturb each other)
 FIXB = @@FIXB@@          # argument name -> fixed boolean (shard constants that split large shards)
 hc.quiet_logging()
+hc.install_set_model()      # C17: set iteration order inside cminx is chosen by the harness (hash-seed model)
+EXCL = MODE in ("excl", "exclseed")
 
 _real_load = yu.load_yaml
 DEFAULT_PATH = os.path.join(os.path.dirname(cminx.__file__), "config_default.yaml")
@@ -95,7 +97,7 @@ def _val(cps, i):
         return cps[i] != 0
     if MODE == "str":
         return hc.S(cps[i * L:(i + 1) * L])
-    if MODE in ("strseq", "excl"):
+    if MODE == "strseq" or EXCL:
         return [hc.S(cps[i * 2 * L:i * 2 * L + L]), hc.S(cps[i * 2 * L + L:(i + 1) * 2 * L])]
     if MODE == "outdir":
         return DIRS[cps[i]]
@@ -106,7 +108,7 @@ def _cli_ok(cps) -> bool:
     """argparse's own convention: an option value must not look like a flag (start with '-'); menu indexes in range"""
     if MODE == "str":
         return cps[2 * L] != 45
-    if MODE == "excl":
+    if EXCL:
         return cps[4 * L] != 45 and cps[5 * L] != 45
     if MODE == "outdir":
         return 0 <= cps[0] < len(DIRS) and 0 <= cps[1] < len(DIRS) and 0 <= cps[2] < len(DIRS)
@@ -124,8 +126,9 @@ def check(u_set: bool, s_set: bool, c_set: bool, cps: $$CPS$$, rel_s: bool, rel_
     pre: MODE == "outdir" or (not rel_s and not rel_u)
     pre: use_s or (not s_set and not rel_s and MODE != "wrongtype")
     pre: all(dict(u_set=u_set, s_set=s_set, c_set=c_set, rel_s=rel_s, rel_u=rel_u, use_s=use_s)[k] == FIXB[k] for k in FIXB)
-    pre: MODE == "wrongtype" or (which == 0 and kind == 0)
+    pre: MODE == "wrongtype" or EXCL or (which == 0 and kind == 0)
     pre: 0 <= which <= 1 and 0 <= kind <= 2
+    pre: not EXCL or ((s_set or which == 0) and (u_set or kind == 0) and kind <= 1)
     post: _
     """
     captured.clear()
@@ -142,6 +145,10 @@ def check(u_set: bool, s_set: bool, c_set: bool, cps: $$CPS$$, rel_s: bool, rel_
     # values are built only for the sources that set the option (a menu lookup with a symbolic index forks)
     uv = _val(cps, 0) if u_set else None
     sv = _val(cps, 1) if s_set else None
+    if EXCL:
+        # a source may also set the option to an EMPTY list (the command line cannot: no -e at all is "not set")
+        if u_set and kind == 1: uv = []
+        if s_set and which == 1: sv = []
     cv = _val(cps, 2) if c_set else None
     Env.user = _put(uv) if u_set else {}
     Env.sfile = _put(sv) if s_set else {}
@@ -157,10 +164,11 @@ def check(u_set: bool, s_set: bool, c_set: bool, cps: $$CPS$$, rel_s: bool, rel_
         if MODE == "bool":
             args = args + [CLI]
             cv = True                      # store_true flags can only switch the option on
-        elif MODE == "excl":
+        elif EXCL:
             args = args + [CLI, cv[0], CLI, cv[1]]
         else:
             args = args + [CLI, cv]
+    hc.VSet.rev = False
     cminx.main(args)
     if len(captured) != 1:
         return hc.report(False, u_set=u_set, s_set=s_set, c_set=c_set, cps=cps, rel_s=rel_s, rel_u=rel_u, which=which, kind=kind, use_s=use_s)
@@ -169,8 +177,17 @@ def check(u_set: bool, s_set: bool, c_set: bool, cps: $$CPS$$, rel_s: bool, rel_
         # exclude patterns: the union of the patterns from all sources
         exp = (cv if c_set else []) + (sv if s_set else []) + (uv if u_set else [])
         ok = list(got) == exp          # the order confuse happens to yield (highest priority first) ...
-        if not ok:                     # ... is not prescribed: any order of the same multiset is fine
-            ok = len(got) == len(exp) and all(sum(1 for g in got if g == e) == sum(1 for x in exp if x == e) for e in exp)
+        if not ok:                     # ... is not prescribed, nor is the multiplicity of a pattern given twice: the same SET of patterns is fine
+            ok = all(any(g == e for g in got) for e in exp) and all(any(g == e for e in exp) for g in got)
+    elif MODE == "exclseed":
+        # C17 (hash seed): the ORDER of the patterns handed to the matcher decides under gitignore rules (the last matching pattern
+        # wins, '!' negates), so it must not depend on the iteration order of a set: same run again under the other order model
+        first = list(got)
+        captured.clear()
+        hc.VSet.rev = True
+        cminx.main(args)
+        hc.VSet.rev = False
+        ok = len(captured) == 1 and list(getattr(getattr(captured[0], SECTION), OPTION)) == first
     elif MODE == "outdir":
         cwd = "/now/cwd"                # the current directory when main() runs, not when cminx was imported
         rel = rel_s or rel_u            # relative_to_config in effect (true in any source that sets it; default false)
